@@ -1,0 +1,7 @@
+//go:build !verif
+
+package flamego
+
+// simYield is a no-op unless built with the "verif" build tag, see
+// simhook_on.go.
+func simYield(int) {}
